@@ -173,6 +173,10 @@ def exc_palette():
     odd = [with_attr("extensions", v) for v in (["jpg", "png"], "ext", ("a",), {"s"}, 42, NoBool(), [], 0, {1: 2}, {"k": object()})]
     odd += [with_attr("extensions", ["x"], OSError), with_attr("path", "notalist"), with_attr("path", 5), with_attr("locations", "x"), with_attr("nodes", 1),
             with_attr("message", 5), with_attr("positions", "p"), with_attr("source", 1), with_attr("original_error", 1), with_attr("args", ())]
+    from graphql import parse as _parse
+    _node = _parse("{ f }").definitions[0].selection_set.selections[0]
+    odd += [with_attr("nodes", (_node,)), with_attr("nodes", (_node, _node)), with_attr("nodes", [_node]), with_attr("nodes", _node), with_attr("nodes", ()),
+            with_attr("nodes", (_node, 1))]
     for src_v, pos_v in (("abc", ["x"]), ("abc", 5), ("abc", [1, "2"]), ("abc", None), (5, [1]), ("", [0])):
         e = with_attr("source", src_v)
         e.positions = pos_v
@@ -199,6 +203,13 @@ VARIABLES = [None, {}, {"v": "s"}, {"v": 1}, {"v": None}, {"x": 1}, {"x": "1"}, 
              {"extra": object()}, {"v": b"bytes"}, {"v": ["a"]}, {"o": {"b": "single"}}, {"i": 10 ** 400}]
 
 OP_NAMES = [None, "Q", "A", "B", "Nope", "", "M"]
+# names that mean something to the implementation language (attributes of enum classes, dunder names, keywords): wherever the
+# grammar wants one name out of a fixed set, such a name is just a wrong name
+PYNAMES = ["mro", "__doc__", "__members__", "__class__", "_member_map_", "name", "value", "__init__", "__dict__", "None", "True", "self", "__module__",
+           "_value2member_map_", "__name__", "real", "__len__", "QUERY ", "query", "Query", "FIELD_DEFINITIONS"]
+PY_TEMPLATES = ["directive @d on %s\n{ f }", "directive @d on FIELD | %s\n{ f }", "{ f(e: %s) }", "query ($e: Color = %s) { f(e: $e) }", "{ %s }", "%s Q { f }",
+                "enum E { %s } { f }", "{ f @%s }", "{ f @skip(%s: true) }", "extend schema { %s: Query } { f }", "{ ... on %s { f } }", "type %s { a: Int } { f }",
+                "query ($v: %s) { f }", "{ f(o: {%s: 1}) }", "schema { %s: Query } { f }", "fragment %s on Query { f } { f }", "{ %s: f }", "{ f(%s: 1) }"]
 VAR_SOURCES = [x for x in SOURCES if "($" in x or "( $" in x]
 ABSTRACT_SOURCES = ["{ u { ... on G { x } } }", "{ it { x } g { g { x } } u { __typename } }", "{ it { x ... on G { nn } } }", "{ a: u { __typename } b: it { x } f }",
                     "{ u { ... on G { s g { x } } } n }", "{ it { __typename } }"]
@@ -496,6 +507,8 @@ Check == LET c == Cases[i] IN (c.accepted => Lex(c.s).ok) \/ PrintT(ToJson([viol
     for k in range(n):
         gen = k % 2 == 0
         src_k = rng.choice(VAR_SOURCES if gen and k % 8 else ABSTRACT_SOURCES if k % 5 == 1 else SOURCES)
+        if k % 7 == 3:
+            src_k = rng.choice(PY_TEMPLATES) % rng.choice(PYNAMES)
         # the operation name: any of the palette, but mostly one under which the request gets past operation selection
         named = re.findall(r"\b(?:query|mutation|subscription) +([A-Za-z_]\w*)", src_k)
         opn = rng.choice(OP_NAMES) if rng.random() < 0.25 else rng.choice(named + [None] if len(named) <= 1 else named)
